@@ -173,6 +173,10 @@ func checkCtl(c *CtlCase) error {
 		if err != nil {
 			return fmt.Errorf("%s, algorithm %d: decoding a well-formed event failed: %v", c.Kind, alg, err)
 		}
+		// the accessors are functions of the event: asked a second time they answer the same
+		if d2, err := decodeCtl(ev, f, c.Kind); err != nil || !reflect.DeepEqual(d, d2) {
+			return fmt.Errorf("%s, algorithm %d: decoding the same event a second time gives %+v (err %v), the first time %+v", c.Kind, alg, d2, err, d)
+		}
 		results = append(results, d)
 	}
 	// the three decodings agree (checksum on == off == undefined once the algorithm is applied)
